@@ -8,7 +8,6 @@ package rt
 
 import (
 	"fmt"
-	"runtime"
 	"sort"
 	"strconv"
 	"strings"
@@ -120,20 +119,24 @@ func (e Event) String() string { return fmt.Sprintf("%s%v@%d", e.Kind, e.Args, e
 
 // Thread is one simulated goroutine.
 type Thread struct {
-	ID      string // (parent id).(creation index): independent of the schedule
-	Site    string // creation site recorded by gosim: importpath/file.go:line
-	Lib     bool   // created by the code under test
-	seq     int
-	wake    chan struct{}
-	pending *op
-	done    bool
-	Panic   any
-	h1, h2  uint64 // observation-history hash
-	nspawn  int
-	nchan   int
-	nobj    int
-	Log     []Event
-	AtEnd   string // pending op at the end of the execution ("" = finished)
+	ID       string // (parent id).(creation index): independent of the schedule
+	Site     string // creation site recorded by gosim: importpath/file.go:line
+	Lib      bool   // created by the code under test
+	seq      int
+	wake     chan struct{}
+	pending  *op
+	done     bool
+	Panic    any
+	h1, h2   uint64 // observation-history hash
+	nspawn   int
+	nchan    int
+	nobj     int
+	Log      []Event
+	AtEnd    string // pending op at the end of the execution ("" = finished)
+	f        func()
+	x        *Exec
+	car      *carrier
+	parentID string
 }
 
 type transition struct {
@@ -177,6 +180,7 @@ type Exec struct {
 	Aborted    bool
 	Trace      *strings.Builder // when non-nil every step is described here
 	KeyLast    bool             // include the last-run thread in Key (needed when preemptions are bounded)
+	Symmetry   bool             // identify states up to permutation of sibling library goroutines (see Key)
 	Cells      []*int           // shared cells (env.Shared) - part of the state
 	Watches    []Watcher        // evaluated by oracles on the terminal state
 	Final      map[string]bool  // results of the watches at the end of the execution
@@ -185,8 +189,65 @@ type Exec struct {
 // X is the execution in progress (one per process at a time).
 var X *Exec
 
+// A carrier is a real goroutine that runs one simulated thread after the other;
+// carriers are reused across executions so that their stacks stay grown.
+type carrier struct {
+	start chan *Thread
+	dead  bool
+}
+
+var pool []*carrier // touched by the scheduler goroutine only
+
+type tearDown struct{}
+
+// tearSentinel unwinds a blocked thread at the end of an execution; translated
+// code cannot swallow it (gosim rewrites recover() into rt.Recover(recover())).
+var tearSentinel = &tearDown{}
+
+// Recover filters the value of a recover() call in translated code.
+func Recover(r any) any {
+	if r == any(tearSentinel) {
+		panic(r)
+	}
+	return r
+}
+
+func (c *carrier) loop() {
+	var t *Thread
+	normal := false
+	defer func() {
+		// only reached when the thread body called runtime.Goexit
+		if !normal && t != nil {
+			c.dead = true
+			t.done = true
+			t.pending = nil
+			t.x.parked <- t
+		}
+	}()
+	for t = range c.start {
+		<-t.wake
+		c.run(t)
+		t.x.parked <- t
+	}
+	normal = true
+}
+
+func (c *carrier) run(t *Thread) {
+	defer func() {
+		if r := recover(); r != nil && r != any(tearSentinel) {
+			t.Panic = r
+		}
+		t.done = true
+		t.pending = nil
+	}()
+	if t.x.teardown {
+		return
+	}
+	t.f()
+}
+
 func (x *Exec) spawn(parent *Thread, f func(), site string) *Thread {
-	t := &Thread{Site: site, wake: make(chan struct{})}
+	t := &Thread{Site: site, wake: make(chan struct{}), f: f, x: x}
 	if parent == nil {
 		t.ID = "0"
 	} else {
@@ -197,22 +258,28 @@ func (x *Exec) spawn(parent *Thread, f func(), site string) *Thread {
 	t.seq = len(x.Threads)
 	t.pending = &op{kind: opStart}
 	x.Threads = append(x.Threads, t)
-	go func() {
-		<-t.wake
-		defer func() {
-			if r := recover(); r != nil {
-				t.Panic = r
-			}
-			t.done = true
-			t.pending = nil
-			x.parked <- t
-		}()
-		if x.teardown {
-			return
-		}
-		f()
-	}()
+	if parent != nil {
+		t.parentID = parent.ID
+	}
+	var c *carrier
+	if n := len(pool); n > 0 {
+		c, pool = pool[n-1], pool[:n-1]
+	} else {
+		c = &carrier{start: make(chan *Thread, 1)}
+		go c.loop()
+	}
+	t.car = c
+	c.start <- t
 	return t
+}
+
+// wait blocks the scheduler until the running thread parks or finishes.
+func (x *Exec) wait() {
+	t := <-x.parked
+	if t.done && t.car != nil && !t.car.dead {
+		pool = append(pool, t.car)
+		t.car = nil
+	}
 }
 
 // doOp is called by the running thread: publish the op, yield to the scheduler,
@@ -226,7 +293,7 @@ func (x *Exec) doOp(o *op) {
 	x.parked <- t
 	<-t.wake
 	if x.teardown {
-		runtime.Goexit()
+		panic(tearSentinel)
 	}
 	if o.panicMsg != "" {
 		panic(o.panicMsg)
@@ -320,7 +387,7 @@ func (x *Exec) enabled() []transition {
 func (x *Exec) resume(t *Thread) {
 	x.cur = t
 	t.wake <- struct{}{}
-	<-x.parked
+	x.wait()
 	x.cur = nil
 }
 
@@ -343,6 +410,16 @@ func repr(v any) string {
 const prime64 = 1099511628211
 
 func (t *Thread) mix(s string) {
+	h1, h2 := t.h1, t.h2
+	for i := 0; i < len(s); i++ {
+		h1 = (h1 ^ uint64(s[i])) * prime64
+		h2 = (h2*31 + uint64(s[i])) ^ (h2 >> 7)
+	}
+	t.h1 = (h1 ^ 0xff) * prime64
+	t.h2 = h2*131 + 7
+}
+
+func (t *Thread) mixb(s []byte) {
 	h1, h2 := t.h1, t.h2
 	for i := 0; i < len(s); i++ {
 		h1 = (h1 ^ uint64(s[i])) * prime64
@@ -453,7 +530,14 @@ func (x *Exec) Key() [2]uint64 {
 	for _, t := range x.Threads {
 		b.Reset()
 		b.WriteString("T")
-		b.WriteString(t.ID)
+		if x.Symmetry && t.Lib {
+			// library goroutines started by the same go statement of the same parent are interchangeable
+			b.WriteString(t.parentID)
+			b.WriteByte('~')
+			b.WriteString(t.Site)
+		} else {
+			b.WriteString(t.ID)
+		}
 		b.WriteByte('/')
 		b.WriteString(strconv.FormatUint(t.h1, 16))
 		b.WriteByte('/')
@@ -585,7 +669,7 @@ func Run(root func(), ch Chooser, cfg func(*Exec)) *Exec {
 		if !t.done {
 			x.cur = t
 			t.wake <- struct{}{}
-			<-x.parked
+			x.wait()
 		}
 	}
 	X = nil
